@@ -24,10 +24,14 @@ def gen_case(rs, tier):
     cfg["bad_tables"] = krng.random() < 0.4
     cfg["else_level"] = krng.random() < 0.5
     cfg["n_constraints"] = min(cfg["n_constraints"], 1)
-    ast = gen.gen_design(rng, cfg, tier)
+    ast = None
+    for attempt in range(4):
+        # C15 is about derived factors: draw again (from a stream of its own) when the design came out without one
+        a = gen.gen_design(rng if attempt == 0 else W.stream(rs, "design-retry%d" % attempt), cfg, tier)
+        if a is not None and any(f["kind"] == "derived" for f in a["factors"]):
+            ast = a
+            break
     if ast is None:
-        return None
-    if not any(f["kind"] == "derived" for f in ast["factors"]):
         return None
     knobs = common.draw_knobs(krng)
     return {"design": ast, "knobs": knobs, "n": krng.choice([1, 2, 4]),
